@@ -84,6 +84,10 @@ class C14(Property):
                 if rng.random() < 0.7:
                     return gen.wrap("complete", p, menu=0)
                 return {"k": "complete-shell", "p": p, "kind": rng.choice(["file", "filemask", "dir", "raw"])}
+            # a completer attached to a WRAPPED item (`.optional().complete(f)`, `.many().complete(f)`): the names the inner
+            # parser offers must still come through
+            if p["k"] in ("optional", "many", "some", "fallback") and p["p"]["k"] in ("arg", "flag") and rng.random() < 0.25:
+                return gen.wrap("complete", p, menu=0)
             return p
         opts["p"] = deco(opts["p"])
         return opts
